@@ -1,2 +1,6 @@
-/-! Driver for C07 (stub: not built yet). -/
-def main : IO Unit := pure ()
+import Drivers.Proto
+import PymocaVerif.Model.FlattenJson
+/-! Driver for C07: flattens a library description with the reference semantics
+    (`PymocaVerif.Flatten.flattenSrc`) and returns the canonical flat model plus the Modelica
+    text the real parser is to be fed. -/
+def main : IO Unit := Drivers.serve PymocaVerif.Flatten.J.handle
